@@ -10,6 +10,9 @@ Two models (`KV/Model/Recovery.lean`).
 crash image of the WAL that keeps the synced part:
 `replay_state`, `published_are_logged`, `published_rederived`, `published_votes_stable`,
 `restart_signatures`, `decided_height_stable`, `replay_starts_after_marker`.
+After a WAL rotation and a restart on an empty head (`#ENDHEIGHT 0` written by `OnStart`):
+`search_finds_marker_across_rotation`, `catchup_across_rotation` (every split into files), and
+`search_early_exit_ge0_counterexample` (the early exit must require a POSITIVE last marker).
 What is NOT derivable — and false of the code — is determinism of the *proposal*: `createBlock`
 reads the transaction pool and is not logged: `proposal_resign_counterexample` (defect F7).
 
@@ -179,6 +182,70 @@ theorem replay_starts_after_marker {ρ : Type} (pre post : MWal ρ) (h : Nat)
     (hpre : hasEnd pre h = false) (hnext : hasEnd (pre ++ Sum.inr h :: post) (h+1) = false) :
     catchup (pre ++ Sum.inr h :: post) (h+1) = Catchup.replay post := by
   simp [catchup, hnext, afterEnd_append h post pre hpre]
+
+/-! ### the WAL group after a rotation -/
+
+/-- **search_finds_marker_across_rotation.** The WAL group was rotated and the restart found the
+head empty or absent, so `BaseWAL.OnStart` wrote `#ENDHEIGHT 0` into it. For EVERY split of the log
+into files (`files` arbitrary, any number of rotations, any height split across files) and every
+height `h ≥ 1`: `SearchForEndHeight(h)` - newest file first, early exit only when the last marker
+seen is POSITIVE and below `h` - succeeds iff `#ENDHEIGHT h` was written. (Without the fresh head,
+with increasing markers: C15 `search_iff`.) -/
+theorem search_finds_marker_across_rotation {ρ : Type} (files : List (MWal ρ)) (h : Nat) (h1 : 1 ≤ h) :
+    (gsearch exitGt0 (files ++ [[Sum.inr 0]]) h).isSome = true ↔ hasEnd files.flatten h = true := by
+  have key := gsearchLoop_fresh_head files h (files.length + 1) (-1) (Nat.le_refl _)
+  have hlen : (files ++ [[Sum.inr (0 : Nat)]] : List (MWal ρ)).length = files.length + 1 := by simp
+  unfold gsearch
+  rw [hlen, key]
+  have hfl : (files ++ [[Sum.inr (0 : Nat)]] : List (MWal ρ)).flatten = files.flatten ++ [Sum.inr 0] := by simp
+  have h0 : hasEnd ([Sum.inr 0] : MWal ρ) h = false := by
+    simp [hasEnd]; omega
+  constructor
+  · rintro ⟨j, _, e⟩
+    have := hasEnd_suffix _ h j e
+    rw [hfl, hasEnd_append, h0, Bool.or_false] at this
+    exact this
+  · intro e
+    refine ⟨0, by omega, ?_⟩
+    rw [List.drop_zero, hfl, hasEnd_append, e, Bool.true_or]
+
+/-- `catchupReplay` on a group of files -/
+def gcatchup {ρ : Type} (exit : Int → Int → Bool) (files : List (MWal ρ)) (csHeight : Nat) : Catchup ρ :=
+  if (gsearch exit files csHeight).isSome then .refused
+  else match gsearch exit files (csHeight - 1) with
+    | none => .nomarker
+    | some recs => .replay recs
+
+/-- **catchup_across_rotation.** After a rotation and a restart on an empty head, the catch-up of a
+height `≥ 2` whose predecessor was finalised (and which is not itself finalised) is neither refused
+nor skipped: the records after `#ENDHEIGHT (csHeight-1)` are replayed, wherever the files were cut. -/
+theorem catchup_across_rotation {ρ : Type} (files : List (MWal ρ)) (cs : Nat) (h2 : 2 ≤ cs)
+    (hprev : hasEnd files.flatten (cs - 1) = true) (hcur : hasEnd files.flatten cs = false) :
+    ∃ recs, gcatchup exitGt0 (files ++ [[Sum.inr 0]]) cs = Catchup.replay recs := by
+  have hn : (gsearch exitGt0 (files ++ [[Sum.inr 0]]) cs).isSome = false := by
+    have := search_finds_marker_across_rotation files cs (by omega)
+    rw [hcur] at this
+    cases hx : (gsearch exitGt0 (files ++ [[Sum.inr 0]]) cs).isSome
+    · rfl
+    · exact absurd (this.1 hx) (by simp)
+  have hp := (search_finds_marker_across_rotation files (cs - 1) (by omega)).2 hprev
+  unfold gcatchup
+  rw [hn]
+  cases hg : gsearch exitGt0 (files ++ [[Sum.inr 0]]) (cs - 1) with
+  | none => rw [hg] at hp; simp at hp
+  | some recs => exact ⟨recs, by simp⟩
+
+/-- **search_early_exit_ge0_counterexample.** With the early exit `lastHeightFound >= 0` (instead
+of `> 0`) the search gives up on the fresh head: `wal.000` holds `#ENDHEIGHT 0`, a record of
+height 1, `#ENDHEIGHT 1` and the node's own vote of height 2; the head holds only `#ENDHEIGHT 0`.
+The code as found returns the reader after `#ENDHEIGHT 1` (the vote is replayed); the changed test
+reports "not found": the replay is skipped and the node runs height 2 again without its vote. -/
+theorem search_early_exit_ge0_counterexample :
+    gsearch exitGt0 ([[Sum.inr 0, Sum.inl (), Sum.inr 1, Sum.inl ()]] ++ [[Sum.inr 0]]) 1
+        = some [Sum.inl (), Sum.inr 0] ∧
+    gsearch exitGe0 ([[Sum.inr 0, Sum.inl (), Sum.inr 1, Sum.inl ()]] ++ [[Sum.inr 0]]) 1
+        = (none : Option (MWal Unit)) := by
+  decide
 
 /-! ### F7: the proposal is not a function of the log -/
 
